@@ -155,6 +155,36 @@ def t_check_dim(E, rank, base, declared):
     E.prove(buf is None or buf.writes == [], 'no element changed') if isinstance(buf, SRegion) else None
 
 
+class _FullMem(_Mem):
+    _pyvc_trusted = True
+    """Memory that has no room: check_free raises the error it is given."""
+    full = True
+    def check_free(self, size, err):
+        if self.full:
+            raise BASICError(err)
+
+
+def t_allocate_out_of_memory(E, rank, base_state):
+    """A DIM that fails with Out of memory leaves no trace of the array: it can be dimensioned again."""
+    arr = _arrays(base_state, E=E)
+    arr._memory = _FullMem()
+    name = b'B%'
+    dims = [E.int('d%d' % i, 1, MAXD) for i in range(rank)]
+    cur0 = arr.current
+    r = E.call(arr.allocate, name, dims)
+    E.prove(r.is_error(BASICError, error.OUT_OF_MEMORY), 'no room: Out of memory')
+    E.prove(name not in arr._dims and name not in arr._buffers and name not in arr._array_memory,
+            'the array is not registered in any of the tables')
+    E.prove(arr.current == cur0, 'nothing allocated')
+    E.prove(not (name in arr), 'the array does not exist')
+    arr._memory.full = False
+    r2 = E.call(arr.allocate, name, [2] * rank)
+    E.prove(not r2.raised, 'and can be dimensioned once there is room')
+    if not r2.raised:
+        ok = E.call(arr.check_dim, name, [2] * rank)
+        E.prove(not ok.raised, 'with working subscripts')
+
+
 def t_allocate(E, rank, base_state):
     """base_state: None (unset), 0, 1."""
     arr = _arrays(base_state, E=E)
@@ -254,6 +284,8 @@ TASKS = [
          cases=[{'rank': r, 'base': b, 'name': n} for r in (1, 2, 3) for b in (0, 1) for n in (b'A%', b'S$', b'D#')]),
     Task('Arrays.check_dim', t_check_dim, covers=('raises', 'returns'),
          cases=[{'rank': r, 'base': b, 'declared': d} for r in (1, 2, 3) for b in (0, 1) for d in (True, False)]),
+    Task('Arrays.allocate (out of memory)', t_allocate_out_of_memory,
+         cases=[{'rank': r, 'base_state': b} for r in (1, 3) for b in (None, 1)]),
     Task('Arrays.allocate', t_allocate, covers=('raises', 'returns'),
          cases=[{'rank': r, 'base_state': b} for r in (1, 2, 3) for b in (None, 0, 1)]),
     Task('Arrays.erase_', t_erase, cases=[{'base': b} for b in (0, 1)]),
